@@ -194,6 +194,17 @@ def evaluate(root: str, tag: str, files: dict[str, str], meta: dict[str, dict], 
             raise ToolFailure(f"mypy reported an error outside the generated stubs: {path}: {es[:2]}")
         for e in es:
             fails[mod].append({"oracle": "mypy", "message": canon_msg(e.split(": ", 1)[1]), "line": e.split(":")[0]})
+    # ---- types: every spelled-out annotation denotes the same type in the stub (both trees built by mypy)
+    src_json = os.path.join(root, f"types_src_{tag}.json")
+    sdump = json.load(open(src_json)) if os.path.exists(src_json) else type_dump(root, src, src_json, "py", pkgs)
+    tdump = type_dump(root, out, os.path.join(root, f"types_{tag}_{mode}.json"), "pyi",
+                      [p for p in pkgs if os.path.isdir(os.path.join(out, p))])
+    if "modules" in sdump and "modules" in tdump:
+        for m in modules:
+            if m in stubs and m in sdump["modules"] and m in tdump["modules"] and \
+                    not any(f["oracle"] == "syntax" for f in fails[m]):
+                for msg in compare_types(sdump["modules"][m], tdump["modules"][m])[:6]:
+                    fails[m].append({"oracle": "types", "message": msg})
     # ---- stubtest on modules whose stub (and their package's shared stubs) are clean
     clean = {m for m in modules if m in stubs and not fails[m]}
     testable: list[str] = []
@@ -271,6 +282,59 @@ def source_precheck(root: str, tag: str, files: dict[str, str], meta: dict[str, 
     return bad
 
 
+def type_dump(root: str, tree_root: str, out_json: str, ext: str, pkgs: list[str]) -> dict:
+    """Resolved types of every definition (harness/c19/typecmp.py under the checked tree's mypy)."""
+    env = repo_env({"MYPY_FORCE_COLOR": "0"})
+    worker = os.path.join(os.path.dirname(os.path.abspath(__file__)), "typecmp.py")
+    p = tools.run([PY, worker, tree_root, out_json, ext] + pkgs, tree_root, env)
+    if p.returncode != 0 or not os.path.exists(out_json):
+        raise ToolFailure("typecmp worker failed: " + (p.stdout + p.stderr)[-1200:])
+    return json.load(open(out_json))
+
+
+def _cmp_func(name: str, s: dict, t: dict) -> list[str]:
+    out = []
+    if not s.get("annotated") or not t.get("annotated"):
+        if s.get("annotated") and any(a[2] for a in s["args"]) or (s.get("annotated") and s["ret"][1]):
+            if not t.get("annotated"):
+                out.append(f"{name}: annotated in the source, no annotation at all in the stub")
+        return out
+    targs = {(a[0] if a[0] is not None else f"#{i}"): a[1] for i, a in enumerate(t["args"])}
+    for i, (n, ty, ex) in enumerate(s["args"]):
+        n = n if n is not None else f"#{i}"          # positional-only parameters have no name in mypy's callable type
+        if ex and n in targs and targs[n] != ty:
+            out.append(f"{name}: parameter {n} is {ty} in the source, {targs[n]} in the stub")
+    if s["ret"][1] and t["ret"][0] != s["ret"][0]:
+        out.append(f"{name}: returns {s['ret'][0]} in the source, {t['ret'][0]} in the stub")
+    return out
+
+
+def compare_types(src: dict, stub: dict) -> list[str]:
+    """Every spelled-out annotation of the source module must denote the same type in the stub module."""
+    out: list[str] = []
+    for name, s in src.items():
+        t = stub.get(name)
+        if s is None or t is None:
+            continue            # presence is the structure oracle's business
+        if s["kind"] == "func" and t["kind"] == "func":
+            out += _cmp_func(name, s, t)
+        elif s["kind"] == "overloaded" and t["kind"] == "overloaded":
+            si = [x for x in s["items"] if x and x.get("annotated")]
+            ti = [x for x in t["items"] if x and x.get("annotated")]
+            for k, x in enumerate(ti):
+                if not any(not _cmp_func(name, y, x) and len(y["args"]) == len(x["args"]) for y in si):
+                    cand = si[k] if k < len(si) else (si[0] if si else None)
+                    out += (_cmp_func(f"{name} (item {k})", cand, x) if cand else []) or [f"{name}: stub overload item {k} matches no source item"]
+        elif s["kind"] == "overloaded" and t["kind"] == "func" and s.get("property"):
+            getter = s["items"][0]
+            if getter and getter.get("annotated"):
+                out += _cmp_func(name, getter, t)
+        elif s["kind"] == "var" and t["kind"] == "var":
+            if s["explicit"] and s["type"] != t["type"]:
+                out.append(f"{name}: declared {s['type']} in the source, {t['type']} in the stub")
+    return out
+
+
 def failure_summary(fs: list[dict]) -> str:
     return " ;; ".join(sorted({f"{f['oracle']}: {f['message']}" for f in fs}))
 
@@ -299,6 +363,14 @@ def run(ctx: Ctx) -> None:
     for i in range(npk_full):
         f, m = gen.gen_package(rng, f"pk{i}", nm)
         files.update(f); meta.update(m); pkgs.append(f"pk{i}")
+    # the hand-written corpus package travels with the generated ones (corpus/c19/corp)
+    cdir = os.path.join(os.path.dirname(os.path.dirname(os.path.dirname(os.path.abspath(__file__)))), "corpus", "c19", "corp")
+    for fn in sorted(os.listdir(cdir)):
+        if fn.endswith(".py"):
+            files[f"corp/{fn}"] = open(os.path.join(cdir, fn), encoding="utf-8").read()
+            mod = "corp" if fn == "__init__.py" else "corp." + fn[:-3]
+            meta[mod] = {"features": ["corpus", "corpus", "corpus"], "all": None}
+    pkgs.append("corp")
     sets.append(("full", files, meta, pkgs, ("parse", "semantic")))
     files, meta, pkgs = {}, {}, []
     for i in range(npk_insp):
@@ -347,7 +419,8 @@ def run(ctx: Ctx) -> None:
                         ctx.coverage.setdefault("witnesses_now_clean", []).append(f"{info['witness']}/{mode}")
                     continue
                 ctx.count("disagreements_checked")
-                summary = failure_summary(fs)
+                # the recorded verdicts of the witnesses are those of the four original oracles
+                summary = failure_summary([f for f in fs if f["oracle"] != "types"] if tag == "wit" else fs)
                 pk = m.split(".")[0]
                 replay = {"part": "search", "module": m, "mode": mode, "failures": fs[:12],
                           "files": {k: v for k, v in files.items() if k.startswith(pk + "/")},
